@@ -205,18 +205,23 @@ def AreaBox.overflow (a : AreaBox) : Bool :=
 /-- `current_footnote_area.margin_height()` of the (not laid out) area box with stored height `h`. -/
 def AreaStyle.marginHeight (a : AreaStyle) (h : Rat) : Rat := h + a.mt + a.mb + a.pt + a.pb + a.bt + a.bb
 
-/-- `_update_footnote_area`: returns the new state and `overflow`. -/
+/-- `max(0, x)` -/
+def max0 (x : Rat) : Rat := if x ≥ 0 then x else 0
+
+/-- `_update_footnote_area`: returns the new state and `overflow`.  What the area takes from the page, and gives
+back, is clamped at 0 (repair 2efefde: a margin box of negative height — negative margins — cannot move
+`page_bottom` below the page box). -/
 def updateArea (c : FCtx) (fs : FState) : FState × Bool :=
   let pb1 := match fs.areaH with
     | none => fs.pageBottom
-    | some h => fs.pageBottom + c.area.marginHeight h
+    | some h => fs.pageBottom + max0 (c.area.marginHeight h)
   if fs.cur.isEmpty then
     -- an empty area is not rendered and takes no room: height back to 'auto' (repair 84e5b27; before it the
     -- height was set to 0 and the area's margins/paddings/borders stayed subtracted from `page_bottom`)
     ({ fs with areaH := none, pageBottom := pb1 }, false)
   else
     let box := areaLayout c.area c.pageH fs.cur
-    ({ fs with areaH := some box.h, pageBottom := pb1 - box.marginHeight }, box.overflow)
+    ({ fs with areaH := some box.h, pageBottom := pb1 - max0 box.marginHeight }, box.overflow)
 
 /-- `layout_footnote` (`self.footnotes.remove` is guarded by `in context.footnotes` / preceded by an
 `append` at both call sites). -/
